@@ -26,12 +26,12 @@ FamGen == [Fam(1, 1, 1, {"A", "B", "T", "u"}, None, {"g", "h", "G"}, IJK, {"i", 
 FamPerm == [Fam(2, 1, 2, {"T"}, None, None, IJK, None, None, None, None, None, None) EXCEPT !.PK = TRUE]
 FamPerm2 == [Fam(2, 1, 2, {"T", "A"}, None, {"G"}, IJK, IJK, None, None, None, None, None) EXCEPT !.PK = TRUE]
 \* three leaves, only trees that follow the rules
-FamThreeV == [Fam(3, 3, 3, {"c", "a", "B"}, {"2"}, {"g"}, IJ, IJ, {"2"}, {"scope"}, None, None, None) EXCEPT !.VO = TRUE]
+FamThreeV == [Fam(3, 3, 3, {"a", "B"}, None, {"g"}, IJ, {"j"}, {"2"}, {"jump"}, None, None, None) EXCEPT !.VO = TRUE]
 \* three leaves over a vector and a square matrix with one letter: summed-index bookkeeping across sums, fractions, powers
 FamSummed == [Fam(3, 2, 3, {"c", "a", "A"}, None, None, {"i"}, None, None, {"scope"}, None, None, None) EXCEPT !.PK = TRUE]
 FamSummed3 == [Fam(3, 3, 3, {"c", "a", "A"}, None, None, {"i"}, None, None, {"scope"}, None, None, None) EXCEPT !.PK = TRUE]
 \* three leaves
-FamThree == [Fam(3, 3, 3, {"c", "a"}, {"2"}, {"sqr", "g"}, IJ, {"i"}, {"2"}, W2, None, None, None) EXCEPT !.PK = TRUE]
+FamThree == [Fam(3, 3, 3, {"c", "a"}, None, {"g"}, IJ, {"i"}, {"2"}, {"scope"}, None, None, None) EXCEPT !.PK = TRUE]
 \* random walks: a narrow index alphabet (many valid trees), the wide one, rule breakers, corruptions
 SimNums == {"2", "3", "10", "0.5", ".5", "1.5", "0"}
 SimExps == {"2", "3", "-1", "-2", "0"}
